@@ -108,7 +108,8 @@ RECURSIVE Observable(_, _, _)
 Observable(st, v, d) ==
     IF d = 0 THEN FALSE
     ELSE CASE v.t \in {"null", "bool", "int", "flt", "fsp", "str", "rng"} -> TRUE
-           [] v.t \in {"bot", "estr", "fn", "itr", "out", "end", "spr"} -> FALSE
+           [] v.t \in {"bot", "estr", "fn", "itr", "out", "end", "spr", "unimpl"} -> FALSE
+           [] v.t = "dstr" -> TRUE
            [] v.t = "iout" -> v.v.t \in {"null", "bool", "int", "flt", "str"}
            [] v.t = "tup" -> \A i \in 1 .. Len(v.v) : Observable(st, v.v[i], d - 1)
            [] v.t = "ref" ->
@@ -133,6 +134,7 @@ Disp(st, v, q) ==
       [] v.t = "bool" -> (IF v.v THEN "true" ELSE "false")
       [] v.t \in {"int", "flt", "fsp"} -> DisplayNum(v)
       [] v.t = "str" -> (IF q THEN "'" \o v.v \o "'" ELSE v.v)
+      [] v.t = "dstr" -> v.v
       [] v.t = "rng" -> DisplayRng(v)
       [] v.t = "iout" -> "IteratorOutput(" \o Disp(st, v.v, FALSE) \o ")"     \* guide: Iterators
       [] v.t = "tup" -> "(" \o DispSeq(st, v.v, 1) \o ")"
@@ -151,7 +153,7 @@ TypeName(c, v) ==
       [] v.t = "itr" -> "Iterator"
       [] v.t = "iout" -> "IteratorOutput"
       [] v.t = "ref" -> (IF c.store[v.v].k = "list" THEN "List" ELSE "Map")
-      [] v.t \in {"bot", "out", "end", "spr"} -> "?"
+      [] v.t \in {"bot", "out", "end", "spr", "unimpl", "dstr"} -> "?"
 
 (***************************************************************************)
 (* Sub-expressions of the strict node kinds, in evaluation order           *)
@@ -165,7 +167,7 @@ Subs(node) ==
     CASE node.k = "bin" -> <<node.a, node.b>>
       [] node.k \in {"neg", "not"} -> <<node.a>>
       [] node.k \in {"list", "tuple", "istr"} -> node.xs
-      [] node.k = "map" -> node.vs
+      [] node.k = "map" -> node.vs \o node.mvs
       [] node.k = "range" -> <<node.a, node.b>>
       [] node.k = "idx" -> <<node.c, node.i>>
       [] node.k \in {"asg", "opasg", "throw", "masg", "yield", "spread", "let"} -> <<node.e>>
@@ -307,6 +309,41 @@ MapPut(o, key, v) == LET j == KeyIndex(o.ks, key) IN
                      ELSE [o EXCEPT !.vs[j] = v]
 
 (***************************************************************************)
+(* Objects (guide: Objects and Metamaps).  A map's metamap is              *)
+(* [ks |-> Seq(STRING), vs |-> Seq(Value)] (metakey names like "@+", "@r+",*)
+(* "@==", "@type", "@base", "@meta name") or <<>> when it has none.        *)
+(***************************************************************************)
+MetaIdx(o, key) == IF o.meta = <<>> THEN 0
+                   ELSE LET S == {i \in 1 .. Len(o.meta.ks) : o.meta.ks[i] = key} IN IF S = {} THEN 0 ELSE CHOOSE i \in S : TRUE
+HasMeta(c, v, key) == IsMap(c, v) /\ MetaIdx(c.store[v.v], key) # 0
+MetaVal(c, v, key) == c.store[v.v].meta.vs[MetaIdx(c.store[v.v], key)]
+IsObj(c, v) == IsMap(c, v) /\ c.store[v.v].meta # <<>>
+VUnimpl == [t |-> "unimpl"]      \* koto.unimplemented
+
+(* `.` access on an object: own data, then "@meta name" entries, then the @base chain (guide: @base, @meta) *)
+RECURSIVE ObjLookup(_, _, _, _)
+ObjLookup(c, v, name, d) ==
+    IF d = 0 \/ ~IsMap(c, v) THEN [ok |-> FALSE]
+    ELSE LET o == c.store[v.v]
+             g == MapGet(o, VStr(name)) IN
+         IF g.ok THEN g
+         ELSE IF MetaIdx(o, "@meta " \o name) # 0 THEN [ok |-> TRUE, v |-> o.meta.vs[MetaIdx(o, "@meta " \o name)]]
+         ELSE IF MetaIdx(o, "@base") # 0 THEN ObjLookup(c, o.meta.vs[MetaIdx(o, "@base")], name, d - 1)
+         ELSE [ok |-> FALSE]
+
+(* the type name of an object: its @type string, else "Map"; and the chain of @type names along @base *)
+RECURSIVE TypeChain(_, _, _)
+TypeChain(c, v, d) ==
+    IF d = 0 \/ ~IsMap(c, v) THEN {}
+    ELSE LET o == c.store[v.v]
+             own == IF MetaIdx(o, "@type") # 0 /\ o.meta.vs[MetaIdx(o, "@type")].t = "str"
+                    THEN {o.meta.vs[MetaIdx(o, "@type")].v} ELSE {} IN
+         own \cup (IF MetaIdx(o, "@base") # 0 THEN TypeChain(c, o.meta.vs[MetaIdx(o, "@base")], d - 1) ELSE {})
+ObjTypeName(c, v) == LET o == c.store[v.v] IN
+                     IF MetaIdx(o, "@type") # 0 /\ o.meta.vs[MetaIdx(o, "@type")].t = "str"
+                     THEN o.meta.vs[MetaIdx(o, "@type")].v ELSE "Map"
+
+(***************************************************************************)
 (* for-loop iteration states over the built-in iterables (guide: Loops,    *)
 (* Ranges, Unpacking in for loops).                                        *)
 (***************************************************************************)
@@ -410,9 +447,12 @@ SeqContains(st, s, v, i) ==
     ELSE LET r == ValEq(st, s[i], v, 6) IN
          IF r = "t" THEN "t" ELSE IF r = "u" THEN "u" ELSE SeqContains(st, s, v, i + 1)
 
+RECURSIVE MetaCall(_, _, _, _, _)      \* defined below with the object dispatch (forward declaration)
 CoreCall(c, node, vs) ==
     LET f == node.f IN
-    CASE f = "print" ->
+    CASE f = "print" /\ Len(vs) = 1 /\ HasMeta(c, vs[1], "@display") ->
+            MetaCall(c, MetaVal(c, vs[1], "@display"), vs[1], <<>>, [t |-> "print"])
+      [] f = "print" ->
             (IF Len(vs) # 1 THEN Unspec(c, "print-arity")
              ELSE IF ~Observable(c.store, vs[1], 6) THEN Unspec(c, "print-unobservable")
              ELSE Rt([c EXCEPT !.out = Append(@, Disp(c.store, vs[1], FALSE))], VNull))
@@ -423,14 +463,16 @@ CoreCall(c, node, vs) ==
                [] v.t = "rng" -> (IF v.a <= v.b THEN Rt(c, VInt(RngLen(v))) ELSE Unspec(c, "desc-range-size"))
                [] v.t = "ref" -> (LET o == c.store[v.v] IN
                                   IF o.k = "list" THEN Rt(c, VInt(Len(o.v)))
+                                  ELSE IF HasMeta(c, v, "@size") THEN MetaCall(c, MetaVal(c, v, "@size"), v, <<>>, [t |-> "val"])
                                   ELSE IF o.meta # <<>> THEN Unspec(c, "meta-size")
                                   ELSE Rt(c, VInt(Len(o.ks))))
                [] v.t \in {"bot", "estr"} -> Unspec(c, "size-bot")
                [] OTHER -> RtErr(c, "size-type"))
       [] f = "type" ->
             (IF IsBot(vs[1]) THEN Unspec(c, "type-bot")
-             ELSE IF vs[1].t = "ref" /\ c.store[vs[1].v].k = "map" /\ c.store[vs[1].v].meta # <<>>
-                  THEN Unspec(c, "meta-type")
+             ELSE IF IsObj(c, vs[1]) THEN
+                (IF ObjTypeName(c, vs[1]) = "Map" THEN Unspec(c, "type-of-object-without-@type")     \* guide: not said
+                 ELSE Rt(c, VStr(ObjTypeName(c, vs[1]))))
              ELSE Rt(c, VStr(TypeName(c, vs[1]))))
       [] f = "assert" ->
             (IF vs[1].t = "bool" THEN (IF vs[1].v THEN Rt(c, VNull) ELSE RtErr(c, "assert"))
@@ -460,7 +502,11 @@ TypeMatches(c, v, ty0) ==
     IF IsBot(v) THEN "u"
     ELSE IF IsOpt(ty0) /\ v.t = "null" THEN "y"
     ELSE IF ty = "Any" THEN "y"
-    ELSE IF v.t = "ref" /\ c.store[v.v].k = "map" /\ c.store[v.v].meta # <<>> THEN "u"
+    ELSE IF IsObj(c, v) THEN
+        \* guide: @type, @base -- type checks refer to base class @type entries when needed
+        (IF ty \in {"Callable", "Indexable", "Iterable"} THEN "u"
+         ELSE IF ty \in TypeChain(c, v, 4) THEN "y"
+         ELSE IF ty = "Map" THEN "u" ELSE "n")
     ELSE IF ty = "Callable" THEN (IF v.t = "fn" THEN (IF c.store[v.v].node.gen THEN "u" ELSE "y") ELSE "n")
     ELSE IF ty = "Indexable" THEN
         (IF v.t \in {"tup", "str", "ref"} THEN "y" ELSE IF v.t \in {"rng", "estr"} THEN "u" ELSE "n")
@@ -547,7 +593,7 @@ BindParams(c, env, params, defs, args, i, di) ==
                 IF m.r = "u" THEN [ok |-> "u"]
                 ELSE IF m.r = "n" THEN [ok |-> "n", kind |-> "unpack-mismatch"]
                 ELSE BindParams(c, m.env, params, defs, args, i + 1, di)
-             ELSE IF p.ty # "" /\ TypeMatches(c, args[i], p.ty) # "y" THEN
+             ELSE IF c.checks /\ p.ty # "" /\ TypeMatches(c, args[i], p.ty) # "y" THEN
                 (IF TypeMatches(c, args[i], p.ty) = "u" THEN [ok |-> "u"] ELSE [ok |-> "n", kind |-> "arg-type"])
              ELSE BindParams(c, Bind(env, p.n, args[i]), params, defs, args, i + 1,
                              IF p.kind = "def" THEN di + 1 ELSE di))
@@ -652,6 +698,12 @@ MethodCall(c, node, vs) ==
         (IF m \in IterMethods THEN IterMethod(c, node, recv, args) ELSE Unspec(c, "iterator-method"))
     ELSE IF recv.t = "iout" THEN
         (IF m = "get" THEN Rt(c, recv.v) ELSE Unspec(c, "iout-method"))
+    ELSE IF IsObj(c, recv) /\ ~HasMeta(c, recv, "@access") /\ ObjLookup(c, recv, m, 4).ok THEN
+        (LET fv == ObjLookup(c, recv, m, 4).v IN
+         IF fv.t = "fn" THEN CallClosure(c, fv, args, node.id, recv) ELSE Unspec(c, "map-entry-call-kind"))
+    ELSE IF m = "with_meta" /\ IsMap(c, recv) /\ Len(args) = 1 /\ IsMap(c, args[1]) THEN
+        \* guide: Sharing Metamaps -- a map with the receiver's data and the argument's metamap
+        Rt(Alloc(c, [c.store[recv.v] EXCEPT !.meta = c.store[args[1].v].meta]), VRef(NewAddr(c)))
     ELSE IF IsMap(c, recv) /\ c.store[recv.v].meta = <<>> /\ MapGet(c.store[recv.v], VStr(m)).ok THEN
         \* guide: Maps and Self -- a function stored in a map is called with the map as `self`
         (LET fv == MapGet(c.store[recv.v], VStr(m)).v IN
@@ -768,6 +820,73 @@ MethodCall(c, node, vs) ==
     ELSE Unspec(c, "method-receiver")
 
 (***************************************************************************)
+(* Operator and protocol dispatch on objects (guide: Objects and Metamaps; *)
+(* property C17).  MetaCall runs a metakey function with the object as     *)
+(* `self`; the frame "metak" says what to do with its result.              *)
+(***************************************************************************)
+MetaCall(c, fv, selfv, args, then) ==
+    IF fv.t # "fn" THEN Unspec(c, "metakey-not-a-function")
+    ELSE CallClosure(Push(c, [k |-> "metak", then |-> then]), fv, args, 0, selfv)
+
+OpKey(op) == "@" \o op
+ROpKey(op) == "@r" \o op
+
+(* arithmetic: left operand's @op first; if it lacks it, or throws koto.unimplemented, the right operand's @r op *)
+ObjBin(c, node, a, b) ==
+    IF HasMeta(c, a, OpKey(node.op)) THEN
+        MetaCall(c, MetaVal(c, a, OpKey(node.op)), a, <<b>>, [t |-> "binl", op |-> node.op, a |-> a, b |-> b])
+    ELSE IF HasMeta(c, b, ROpKey(node.op)) THEN
+        MetaCall(c, MetaVal(c, b, ROpKey(node.op)), b, <<a>>, [t |-> "val"])
+    ELSE IF IsMap(c, a) /\ IsMap(c, b) /\ node.op = "+" THEN Unspec(c, "meta-join")
+    ELSE IF IsBot(a) \/ IsBot(b) THEN Unspec(c, "bot-operand")
+    ELSE RtErr(c, "binop-types")
+
+(* continue a comparison chain after link number f.i - 1 has been decided: r \in {"t", "f"} *)
+CmpContinue(c0, f, v, r) ==
+    IF r = "f" THEN Rt(c0, VFalse)
+    ELSE IF f.i = Len(f.node.xs) THEN Rt(c0, VTrue)
+    ELSE Ev(Push(c0, [f EXCEPT !.i = @ + 1, !.left = v]), f.node.xs[f.i + 1])
+
+(* comparison with an object on the left: @==, @!=, @<, @<=, @>, @>=; missing !=, <=, >, >= are derived from
+   @== and @< (guide: Comparison Operators) *)
+ObjCompare(c0, f, a, v) ==
+    LET op == f.node.ops[f.i - 1]
+        K(mode) == [t |-> "cmpk", f |-> f, a |-> a, v |-> v, mode |-> mode]
+        Call(key, mode) == MetaCall(c0, MetaVal(c0, a, key), a, <<v>>, K(mode)) IN
+    IF HasMeta(c0, a, OpKey(op)) THEN Call(OpKey(op), "id")
+    ELSE CASE op = "!=" -> (IF HasMeta(c0, a, "@==") THEN Call("@==", "neg") ELSE Unspec(c0, "object-equality-without-@=="))
+           [] op = "==" -> Unspec(c0, "object-equality-without-@==")
+           [] op = "<=" -> (IF HasMeta(c0, a, "@<") /\ HasMeta(c0, a, "@==") THEN Call("@<", "le2") ELSE RtErr(c0, "compare-types"))
+           [] op = ">"  -> (IF HasMeta(c0, a, "@<") /\ HasMeta(c0, a, "@==") THEN Call("@<", "gt2") ELSE RtErr(c0, "compare-types"))
+           [] op = ">=" -> (IF HasMeta(c0, a, "@<") THEN Call("@<", "neg") ELSE RtErr(c0, "compare-types"))
+           [] op = "<"  -> RtErr(c0, "compare-types")
+
+(* the result of a metakey function arrives at its "metak" frame *)
+MetaReturn(c0, then, v) ==
+    CASE then.t \in {"val", "binl"} -> Rt(c0, v)
+      [] then.t = "discard" -> Rt(c0, VBot)          \* compound assignment / index assignment: called for its effect
+      [] then.t = "cmpk" ->
+            (IF v.t # "bool" THEN Unspec(c0, "comparison-metakey-non-bool")
+             ELSE CASE then.mode = "id" -> CmpContinue(c0, then.f, then.v, IF v.v THEN "t" ELSE "f")
+                    [] then.mode = "neg" -> CmpContinue(c0, then.f, then.v, IF v.v THEN "f" ELSE "t")
+                    [] then.mode = "le2" ->
+                        (IF v.v THEN CmpContinue(c0, then.f, then.v, "t")
+                         ELSE MetaCall(c0, MetaVal(c0, then.a, "@=="), then.a, <<then.v>>, [then EXCEPT !.mode = "id"]))
+                    [] then.mode = "gt2" ->
+                        (IF v.v THEN CmpContinue(c0, then.f, then.v, "f")
+                         ELSE MetaCall(c0, MetaVal(c0, then.a, "@=="), then.a, <<then.v>>, [then EXCEPT !.mode = "neg"])))
+      [] then.t = "print" ->
+            (IF v.t # "str" THEN Unspec(c0, "display-non-string")
+             ELSE Rt([c0 EXCEPT !.out = Append(@, v.v)], VNull))
+      [] then.t = "istr" ->       \* an interpolated object: continue building the string with its @display text
+            (IF v.t # "str" THEN Unspec(c0, "display-non-string")
+             ELSE Rt(c0, [t |-> "dstr", v |-> v.v]))
+      [] then.t = "iter" ->       \* @iterator returned an iterable: iterate over it
+            Rt(c0, v)
+      [] then.t = "next" ->       \* @next: null ends the iteration
+            (IF v.t = "null" THEN Rt(c0, SigEnd) ELSE Rt(c0, SigOut(v)))
+
+(***************************************************************************)
 (* Apply: all operands of a strict node have been evaluated.               *)
 (***************************************************************************)
 RECURSIVE FlattenArgs(_, _)
@@ -778,24 +897,30 @@ RECURSIVE ConcatDisp(_, _, _)
 ConcatDisp(st, vs, i) == IF i > Len(vs) THEN "" ELSE Disp(st, vs[i], FALSE) \o ConcatDisp(st, vs, i + 1)
 
 Apply(c, node, vs) ==
-    CASE node.k = "bin" -> BinOp(c, node.op, vs[1], vs[2])
+    CASE node.k = "bin" -> (IF IsObj(c, vs[1]) \/ IsObj(c, vs[2]) THEN ObjBin(c, node, vs[1], vs[2])
+                            ELSE BinOp(c, node.op, vs[1], vs[2]))
       [] node.k = "neg" ->
-            (IF IsNum(vs[1]) THEN RtW(c, NumNeg(vs[1]))
+            (IF HasMeta(c, vs[1], "@negate") THEN MetaCall(c, MetaVal(c, vs[1], "@negate"), vs[1], <<>>, [t |-> "val"])
+             ELSE IF IsObj(c, vs[1]) THEN RtErr(c, "neg-type")
+             ELSE IF IsNum(vs[1]) THEN RtW(c, NumNeg(vs[1]))
              ELSE IF vs[1].t \in {"bot", "estr"} THEN Unspec(c, "neg-bot") ELSE RtErr(c, "neg-type"))
       [] node.k = "not" ->
             (IF IsBot(vs[1]) THEN Unspec(c, "not-bot") ELSE Rt(c, VBool(~Truthy(vs[1]))))
       [] node.k = "tuple" -> Rt(c, VTup(vs))
       [] node.k = "list" -> Rt(Alloc(c, [k |-> "list", v |-> vs]), VRef(NewAddr(c)))
       [] node.k = "map" ->
-            (LET j == MapJoin(<<>>, <<>>, [i \in 1 .. Len(node.ks) |-> VStr(node.ks[i])], vs, 1) IN
-             Rt(Alloc(c, [k |-> "map", ks |-> j.ks, vs |-> j.vs, meta |-> <<>>]), VRef(NewAddr(c))))
+            (LET nd == Len(node.ks)
+                 j == MapJoin(<<>>, <<>>, [i \in 1 .. nd |-> VStr(node.ks[i])], SubSeq(vs, 1, nd), 1)
+                 meta == IF node.mks = <<>> THEN <<>> ELSE [ks |-> node.mks, vs |-> SubSeq(vs, nd + 1, Len(vs))] IN
+             Rt(Alloc(c, [k |-> "map", ks |-> j.ks, vs |-> j.vs, meta |-> meta]), VRef(NewAddr(c))))
       [] node.k = "range" ->
             (IF vs[1].t = "int" /\ vs[2].t = "int" THEN Rt(c, VRng(vs[1].v, vs[2].v, node.inc))
              ELSE IF IsBot(vs[1]) \/ IsBot(vs[2]) THEN Unspec(c, "range-bot")
              ELSE IF (vs[1].t = "flt" \/ vs[1].t = "int") /\ (vs[2].t = "flt" \/ vs[2].t = "int")
                   THEN Unspec(c, "float-range")
              ELSE RtErr(c, "range-type"))
-      [] node.k = "idx" -> IndexInto(c, vs[1], vs[2])
+      [] node.k = "idx" -> (IF HasMeta(c, vs[1], "@index") THEN MetaCall(c, MetaVal(c, vs[1], "@index"), vs[1], <<vs[2]>>, [t |-> "val"])
+                            ELSE IndexInto(c, vs[1], vs[2]))
       [] node.k = "istr" ->
             (IF \A i \in 1 .. Len(vs) : Observable(c.store, vs[i], 6)
              THEN Rt(c, VStr(ConcatDisp(c.store, vs, 1))) ELSE Unspec(c, "istr-unobservable"))
@@ -808,6 +933,11 @@ Apply(c, node, vs) ==
              ELSE Rt([c EXCEPT !.env = Bind(@, node.n, vs[1])], vs[1]))
       [] node.k = "opasg" ->
             (IF ~Has(c.env, node.n) THEN Unspec(c, "opasg-unbound")
+             ELSE IF IsObj(c, c.env[node.n]) THEN
+                \* guide: `@*=` etc.  The function is called for its effect; the variable keeps referring to the object
+                (IF HasMeta(c, c.env[node.n], OpKey(node.op) \o "=")
+                 THEN MetaCall(c, MetaVal(c, c.env[node.n], OpKey(node.op) \o "="), c.env[node.n], <<vs[1]>>, [t |-> "discard"])
+                 ELSE RtErr(c, "binop-types"))
              ELSE LET r == BinOp(c, node.op, c.env[node.n], vs[1]) IN
                   IF r.ctl.m = "rt" THEN [r EXCEPT !.env = Bind(@, node.n, r.ctl.v)] ELSE r)
       [] node.k = "masg" ->
@@ -815,7 +945,9 @@ Apply(c, node, vs) ==
             (LET el == ElemsOf(c, vs[1]) IN
              IF ~el.ok THEN Unspec(c, "unpack-kind")
              ELSE Rt([c EXCEPT !.env = BindSeq(@, node.ns, el.s, 1)], VBot))
-      [] node.k = "iasg" -> IndexAssign(c, vs[1], vs[2], vs[3])
+      [] node.k = "iasg" -> (IF HasMeta(c, vs[1], "@index_assign")
+                             THEN MetaCall(c, MetaVal(c, vs[1], "@index_assign"), vs[1], <<vs[2], vs[3]>>, [t |-> "discard"])
+                             ELSE IndexAssign(c, vs[1], vs[2], vs[3]))
       [] node.k = "iopasg" ->
             (LET cur == IndexInto(c, vs[1], vs[2]) IN
              IF cur.ctl.m # "rt" THEN cur
@@ -824,16 +956,21 @@ Apply(c, node, vs) ==
                   ELSE LET w == IndexAssign(r, vs[1], vs[2], r.ctl.v) IN
                        IF w.ctl.m = "rt" THEN Rt(w, VBot) ELSE w)
       [] node.k = "dot" ->
-            (IF IsMap(c, vs[1]) THEN
+            (IF HasMeta(c, vs[1], "@access") THEN MetaCall(c, MetaVal(c, vs[1], "@access"), vs[1], <<VStr(node.n)>>, [t |-> "val"])
+             ELSE IF IsObj(c, vs[1]) THEN
+                (LET r == ObjLookup(c, vs[1], node.n, 4) IN IF r.ok THEN Rt(c, r.v) ELSE Unspec(c, "dot-missing"))
+             ELSE IF IsMap(c, vs[1]) THEN
                 (LET o == c.store[vs[1].v] IN
                  IF o.meta # <<>> THEN Unspec(c, "meta-dot")
                  ELSE LET r == MapGet(o, VStr(node.n)) IN
                       IF r.ok THEN Rt(c, r.v) ELSE Unspec(c, "dot-missing"))
              ELSE Unspec(c, "dot-kind"))
       [] node.k = "dasg" ->
-            (IF IsMap(c, vs[1]) THEN
+            (IF HasMeta(c, vs[1], "@access_assign")
+                THEN MetaCall(c, MetaVal(c, vs[1], "@access_assign"), vs[1], <<VStr(node.n), vs[2]>>, [t |-> "discard"])
+             ELSE IF IsMap(c, vs[1]) THEN
                 (LET o == c.store[vs[1].v] IN
-                 IF o.meta # <<>> THEN Unspec(c, "meta-dot")
+                 IF HasMeta(c, vs[1], "@access") THEN Unspec(c, "meta-dot")
                  ELSE Rt([c EXCEPT !.store[vs[1].v] = MapPut(o, VStr(node.n), vs[2])], VBot))
              ELSE IF IsBot(vs[1]) \/ vs[1].t = "estr" THEN Unspec(c, "dasg-bot") ELSE RtErr(c, "dasg-kind"))
       [] node.k = "dopasg" ->
@@ -849,12 +986,15 @@ Apply(c, node, vs) ==
       [] node.k = "core" -> CoreCall(c, node, vs)
       [] node.k = "mcall" -> MethodCall(c, node, vs)
       [] node.k = "app" ->
-            (IF vs[1].t = "fn" THEN CallClosure(c, vs[1], FlattenArgs(Tail(vs), 1), node.id, VBot)
+            (IF HasMeta(c, vs[1], "@call") THEN
+                (IF MetaVal(c, vs[1], "@call").t # "fn" THEN Unspec(c, "metakey-not-a-function")
+                 ELSE CallClosure(c, MetaVal(c, vs[1], "@call"), FlattenArgs(Tail(vs), 1), node.id, vs[1]))
+             ELSE IF vs[1].t = "fn" THEN CallClosure(c, vs[1], FlattenArgs(Tail(vs), 1), node.id, VBot)
              ELSE IF IsBot(vs[1]) \/ vs[1].t \in {"ref", "estr"} THEN Unspec(c, "call-kind")
              ELSE RtErr(c, "not-callable"))
       [] node.k = "let" ->
             \* guide: Type Checks / let -- a value that does not match the declared type is an error
-            (LET t == TypeMatches(c, vs[1], node.ty) IN
+            (LET t == IF c.checks THEN TypeMatches(c, vs[1], node.ty) ELSE "y" IN
              IF t = "u" THEN Unspec(c, "let-type-unspec")
              ELSE IF t = "n" THEN RtErr(c, "let-type")
              ELSE Rt([c EXCEPT !.env = Bind(@, node.n, vs[1])], vs[1]))
@@ -870,7 +1010,7 @@ Apply(c, node, vs) ==
              ELSE LET gi == CHOOSE i \in G : \A i2 \in G : i <= i2
                       gb == c.kont[gi]
                       g == c.store[gb.a]
-                      tyr == IF g.ret = "" THEN "y" ELSE TypeMatches(c, vs[1], g.ret) IN
+                      tyr == IF g.ret = "" \/ ~c.checks THEN "y" ELSE TypeMatches(c, vs[1], g.ret) IN
                   IF tyr = "u" THEN Unspec(c, "yield-type-unspec")
                   ELSE IF tyr = "n" THEN RtErr(c, "yield-type")
                   ELSE Rt([c EXCEPT !.store[gb.a] = [@ EXCEPT !.st = "susp", !.env = c.env,
@@ -880,7 +1020,8 @@ Apply(c, node, vs) ==
                           SigOut(vs[1])))
       [] node.k = "throw" ->
             \* guide: throw accepts strings or objects that implement @display
-            (IF vs[1].t = "str" THEN Throw(c, vs[1])
+            (IF vs[1].t \in {"str", "unimpl"} THEN Throw(c, vs[1])
+             ELSE IF IsObj(c, vs[1]) THEN Throw(c, vs[1])        \* objects that implement @display may be thrown
              ELSE IF vs[1].t \in {"bot", "estr", "ref"} THEN Unspec(c, "throw-kind")
              ELSE RtErr(c, "throw-type"))
 
@@ -896,6 +1037,7 @@ LitValue(node) ==
 
 Eval(c, node) ==
     IF node.k \in {"null", "bool", "int", "flt", "str"} THEN Rt(c, LitValue(node))
+    ELSE IF node.k = "unimpl" THEN Rt(c, VUnimpl)
     ELSE IF node.k = "id" THEN
         (IF Has(c.env, node.n) THEN Rt(c, c.env[node.n])
          ELSE LET j == KeyIndex(c.exp.ks, VStr(node.n)) IN
@@ -965,7 +1107,7 @@ ForBody(c, f, v) ==    \* bind the loop variables to element v and run the body 
               ELSE LET el == ElemsOf(c, v) IN
                    IF el.ok THEN [ok |-> TRUE, env |-> BindSeq(c.env, node.vars, el.s, 1)] ELSE [ok |-> FALSE]
         tys == node.tys
-        bad == {i \in 1 .. Len(tys) : tys[i] # "" /\ Has(c1.env, node.vars[i])
+        bad == {i \in 1 .. Len(tys) : c.checks /\ tys[i] # "" /\ Has(c1.env, node.vars[i])
                                        /\ TypeMatches(c, c1.env[node.vars[i]], tys[i]) # "y"}
     IN IF ~c1.ok THEN Unspec(c, "for-unpack-kind")
        ELSE IF \E i \in bad : TypeMatches(c, c1.env[node.vars[i]], tys[i]) = "u" THEN Unspec(c, "for-type-unspec")
@@ -977,6 +1119,8 @@ LoopNext(c, f) ==     \* next iteration of the loop whose frame f has just been 
     CASE node.k \in {"while", "until"} -> Ev(Push(c, [f EXCEPT !.ph = "cond"]), node.c)
       [] node.k = "loop" -> Ev(Push(c, [f EXCEPT !.ph = "body", !.n = @ + 1]), node.b)
       [] node.k = "for" /\ f.it.k = "itr" -> Pull(Push(c, [f EXCEPT !.ph = "pull"]), f.it.a)
+      [] node.k = "for" /\ f.it.k = "objnext" ->
+            MetaCall(Push(c, [f EXCEPT !.ph = "pull"]), MetaVal(c, f.it.v, "@next"), f.it.v, <<>>, [t |-> "next"])
       [] node.k = "for" ->
             (LET r == IterNext(c, f.it) IN
              IF ~r.more THEN ForDone(c, f)
@@ -990,7 +1134,7 @@ SumSeq(c, s, i, acc) ==
 
 (* guide: Type Checks / Functions -- `-> T` checks the returned value *)
 CallReturn(c0, f, v) ==
-    LET t == IF f.ret = "" THEN "y" ELSE TypeMatches(c0, v, f.ret) IN
+    LET t == IF f.ret = "" \/ ~c0.checks THEN "y" ELSE TypeMatches(c0, v, f.ret) IN
     IF t = "u" THEN Unspec(c0, "return-type-unspec")
     ELSE IF t = "n" THEN RtErr([c0 EXCEPT !.env = f.env], "return-type")
     ELSE Rt([c0 EXCEPT !.env = f.env], v)
@@ -1012,12 +1156,12 @@ Return(c, v) ==
       [] f.k = "cmp" ->
             \* chained comparisons: each operand evaluated once, stop at the first false link
             (IF f.i = 1 THEN Ev(Push(c0, [f EXCEPT !.i = 2, !.left = v]), f.node.xs[2])
+             ELSE IF IsObj(c0, f.left) THEN ObjCompare(c0, f, f.left, v)
+             ELSE IF IsObj(c0, v) THEN Unspec(c, "object-on-the-right-of-a-comparison")
              ELSE LET r == Compare(c0, f.node.ops[f.i - 1], f.left, v) IN
                   IF r = "u" THEN Unspec(c, "compare-unspec")
                   ELSE IF r = "e" THEN RtErr(c0, "compare-types")
-                  ELSE IF r = "f" THEN Rt(c0, VFalse)
-                  ELSE IF f.i = Len(f.node.xs) THEN Rt(c0, VTrue)
-                  ELSE Ev(Push(c0, [f EXCEPT !.i = @ + 1, !.left = v]), f.node.xs[f.i + 1]))
+                  ELSE CmpContinue(c0, f, v, r))
       [] f.k = "if" ->
             \* guide: if / switch; no branch taken => null
             (IF IsBot(v) THEN Unspec(c, "if-bot")
@@ -1058,6 +1202,7 @@ Return(c, v) ==
       [] f.k = "genb" ->
             \* the generator's body has returned: the generator is exhausted
             Rt([c0 EXCEPT !.store[f.a].st = "done", !.env = f.env], SigEnd)
+      [] f.k = "metak" -> MetaReturn(c0, f.then, v)
       [] f.k = "matchs" -> TryArms(c0, f.node, v, 1, 1)
       [] f.k = "matchg" ->
             (IF IsBot(v) THEN Unspec(c, "guard-bot")
@@ -1075,6 +1220,11 @@ Return(c, v) ==
                     THEN Ev(Push(c0, [f EXCEPT !.ph = "body", !.n = @ + 1]), f.node.b)
                     ELSE Rt(c0, IF f.n = 0 THEN VNull ELSE VBot))
              ELSE LoopNext(c0, f))
+      [] f.k = "forinit" /\ HasMeta(c0, v, "@next") ->
+            \* guide: @next -- called repeatedly, null ends the iteration (checked before @iterator)
+            LoopNext(c0, [k |-> "loop", node |-> f.node, ph |-> "body", it |-> [k |-> "objnext", v |-> v], n |-> 0])
+      [] f.k = "forinit" /\ HasMeta(c0, v, "@iterator") ->
+            MetaCall(Push(c0, f), MetaVal(c0, v, "@iterator"), v, <<>>, [t |-> "iter"])
       [] f.k = "forinit" ->
             (IF IsBot(v) THEN Unspec(c, "for-bot")
              ELSE LET mi == MakeIter(c0, v) IN
@@ -1106,10 +1256,14 @@ Return(c, v) ==
 (* Abrupt completion: break / continue / return / throw unwind frames.     *)
 (***************************************************************************)
 SelectCatch(c, node, v, i) ==
-    \* typed catches are tried in order; the last one is untyped (guide: Type checks on catch blocks)
-    LET S == {j \in 1 .. Len(node.catches) :
-                node.catches[j].ty = "" \/ node.catches[j].ty = TypeName(c, v)} IN
-    IF S = {} THEN 0 ELSE CHOOSE j \in S : \A k \in S : j <= k
+    \* typed catches are tried in order; the last one is untyped (guide: Type checks on catch blocks).
+    \* Result: index of the handler, 0 if none, -1 if an earlier hint's verdict is not specified.
+    LET M(j) == IF node.catches[j].ty = "" THEN "y" ELSE TypeMatches(c, v, node.catches[j].ty)
+        S == {j \in 1 .. Len(node.catches) : M(j) = "y"}
+        U == {j \in 1 .. Len(node.catches) : M(j) = "u"} IN
+    IF S = {} THEN (IF U = {} THEN 0 ELSE 0 - 1)
+    ELSE LET j == CHOOSE x \in S : \A k \in S : x <= k IN
+         IF \E u \in U : u < j THEN 0 - 1 ELSE j
 
 Unwind(c) ==
     LET ctl == c.ctl IN
@@ -1122,7 +1276,7 @@ Unwind(c) ==
     LET f == Top(c)  c0 == Pop(c) IN
     IF f.k = "try" /\ f.ph = "body" /\ ctl.m = "thr" /\ f.node.catches # <<>> THEN
         (LET j == SelectCatch(c0, f.node, ctl.v, 1) IN
-         IF j = 0 THEN Unspec(c, "no-untyped-catch")
+         IF j <= 0 THEN Unspec(c, IF j = 0 THEN "no-untyped-catch" ELSE "catch-hint-unspecified")
          ELSE LET h == f.node.catches[j] IN
               Ev([Push(c0, [f EXCEPT !.ph = "catch"]) EXCEPT !.env = Bind(@, h.n, ctl.v)], h.b))
     ELSE IF f.k = "try" /\ f.ph \in {"body", "catch"} /\ f.node.has_fin THEN
@@ -1131,6 +1285,11 @@ Unwind(c) ==
         \* or catch block is left by return / break / continue or by an error thrown in the catch block.
         (IF "F28" \in c.dev THEN [c0 EXCEPT !.used = @ \cup {"F28"}]
          ELSE Ev(Push(c0, [f EXCEPT !.ph = "fin", !.pend = ctl]), f.node.fin))
+    ELSE IF f.k = "metak" /\ ctl.m = "thr" /\ f.then.t = "binl" /\ ctl.v.t = "unimpl" THEN
+        \* guide: throw koto.unimplemented lets the runtime try the right operand's implementation
+        (IF HasMeta(c0, f.then.b, ROpKey(f.then.op))
+         THEN MetaCall(c0, MetaVal(c0, f.then.b, ROpKey(f.then.op)), f.then.b, <<f.then.a>>, [t |-> "val"])
+         ELSE RtErr(c0, "binop-unimplemented"))
     ELSE IF f.k = "loop" /\ ctl.m = "brk" THEN Rt(c0, ctl.v)
     ELSE IF f.k = "loop" /\ ctl.m = "cnt" THEN
         (IF f.node.k = "loop" \/ f.node.k = "for" THEN LoopNext(c0, f)
@@ -1165,7 +1324,10 @@ Step(c) ==
 (* dev: the set of named deviations (known findings modelled as the code behaves) that are enabled;
    used: those whose rule was actually taken in this run. *)
 InitCfg(prog, dev) == [ctl |-> [m |-> "ev", n |-> prog], env |-> EmptyEnv, kont |-> <<>>, store |-> <<>>,
-                       out |-> <<>>, exp |-> [ks |-> <<>>, vs |-> <<>>], n |-> 0, dev |-> dev, used |-> {}]
+                       out |-> <<>>, exp |-> [ks |-> <<>>, vs |-> <<>>], n |-> 0, dev |-> dev, used |-> {},
+                       \* "notypes" \in dev: compiled with enable_type_checks off (C16): hints on let / for / arguments /
+                       \* return / yield are not checked; match and catch patterns keep selecting
+                       checks |-> ~("notypes" \in dev)]
 
 (* Run up to 2^k steps with recursion depth k. *)
 RECURSIVE RunK(_, _)
